@@ -2034,6 +2034,8 @@ using Exchange = f8String;
 using Language = f8String;
 using XMLData = f8String;
 using data = f8String;
+using pattern = f8String;
+using Tenor = f8String;
 
 //-------------------------------------------------------------------------------------------------
 /// Field metadata structures
